@@ -32,7 +32,7 @@
 EXTENDS Naturals, Integers, Sequences, FiniteSets, TLC, Json, IOUtils
 
 CONSTANTS Source,      \* "enum" | "file"
-          Kinds, Fmts, Ks, Indents, BlankCounts,   \* enumeration bounds (cfg)
+          Kinds, Fmts, Ks, Indents, BlankCounts, Seps,   \* enumeration bounds (cfg); Seps: subset of {"none", "ls", "nel"}
           LeadingWsKept,       \* TRUE while the tree has the deviation (known finding leading-ws-line-shift): see CleanLead
           RstLineNotConverted  \* TRUE while the tree has the deviation (known finding rst-markup-line-off-by-one); FALSE once
                                \* proposed_fixes/C16-rst-markup-line-off-by-one.diff is applied, so that model drift stays 0
@@ -54,13 +54,20 @@ WellFormed(l) ==
     \* lead = "title": the docstring opens with a section title (title, underline, blank line), so that its first paragraph -
     \* the one the summary is made of - is NOT on the first line of the docstring
     /\ (l.lead = "title" => l.pos = "p1" /\ ~l.raw /\ l.k = 0 /\ ~l.longws /\ ~l.typed)
+    \* sep: a character that str.splitlines() treats as a line boundary but Python's tokenizer does not (LINE SEPARATOR U+2028,
+    \* NEXT LINE U+0085; both are legal XML characters, unlike form feed) stands in the MIDDLE of the second line of the docstring, before the construct at fault.  It is no line
+    \* end: nothing moves (no term for it in Mark or ReportedLine)
+    /\ (l.sep # "none" => l.pos # "p1" /\ ~l.raw /\ l.k = 0 /\ l.blanks = 0 /\ l.indent = 0 /\ ~l.longws /\ ~l.typed /\ l.lead = "none" /\ ~l.tight)
+    \* cons: reST CONSOLIDATED field, definition-list form (":Parameters:" / "    name" / "        description"): every item is a
+    \* field of its own, located by the line of its term (restructuredtext.py handle_consolidated_definition_list)
+    /\ (l.cons => l.fmt = "restructuredtext" /\ l.prob = "param" /\ ~l.raw /\ l.k = 0 /\ ~l.longws /\ l.lead = "none" /\ l.sep = "none")
     \* tight: the closing quotes stand on the last line of text instead of a line of their own
     /\ (l.tight => l.fmt = "google" /\ l.prob = "xref" /\ l.pos = "field" /\ l.kind \in {"module", "attribute"}
                     /\ ~l.raw /\ l.k = 0 /\ ~l.longws /\ l.lead = "none")
 
 Layouts == {l \in [kind : Kinds, fmt : Fmts, prob : Probs, pos : Poss, open : BOOLEAN,
                    blanks : BlankCounts, indent : Indents, raw : BOOLEAN, k : Ks, typed : BOOLEAN, longws : BOOLEAN,
-                   lead : {"none", "title"}, tight : BOOLEAN] : WellFormed(l)}
+                   lead : {"none", "title"}, tight : BOOLEAN, sep : Seps, cons : BOOLEAN] : WellFormed(l)}
 
 \* OBS_FILE: {"obs": [[id, lay, lines] ...], "groups": [[index into obs ...] ...]}  (groups: same layout up to k)
 ObsFile  == IF Source = "file" THEN JsonDeserialize(IOEnv.OBS_FILE) ELSE [obs |-> <<>>, groups |-> <<>>]
@@ -100,7 +107,8 @@ Mark0(l) ==
                              [] l.fmt = "google" -> [first |-> 9, at |-> 11]                              \* Note: / body / body
                              [] l.fmt = "numpy"  -> [first |-> 9, at |-> 12])                             \* Note / ---- / body / body
     [] l.pos = "own" ->
-         (CASE l.fmt \in {"epytext", "restructuredtext"} -> [first |-> 11, at |-> 11]
+         (CASE l.cons -> [first |-> 14, at |-> 14]                \* :note: (9-10)  :Parameters:  a  the arg  nosuch  text
+            [] l.fmt \in {"epytext", "restructuredtext"} -> [first |-> 11, at |-> 11]
             [] l.fmt \in {"google", "numpy"} /\ l.prob = "unkfield" -> [first |-> 9, at |-> 9]  \* ':unknownfield: text' + blank before Note
             [] l.fmt = "google" /\ l.prob = "param" /\ ~l.typed -> [first |-> 15, at |-> 15]   \* Note(9-11) blank Args: a nosuch
             [] l.fmt = "numpy"  /\ l.prob = "param" /\ ~l.typed -> [first |-> 18, at |-> 18]   \* Note(9-12) blank Parameters ---- a desc nosuch
@@ -111,7 +119,8 @@ Mark(l) == [first |-> Mark0(l).first + LeadLen(l), at |-> Mark0(l).at + LeadLen(
 \* number of lines of the cleaned docstring
 DocLen0(l) ==
   LET shift == IF l.prob = "unkfield" /\ l.fmt \in {"google", "numpy"} THEN 2 ELSE 0 IN
-  CASE l.fmt \in {"epytext", "restructuredtext"} -> IF l.pos = "own" THEN 12 ELSE 11
+  CASE l.cons -> 16
+    [] l.fmt \in {"epytext", "restructuredtext"} -> IF l.pos = "own" THEN 12 ELSE 11
     [] l.fmt = "google" -> shift + 12 + (IF l.typed THEN 6 ELSE IF HasArgs(l) THEN 3 + (IF l.prob = "param" THEN 1 ELSE 0) ELSE 0)
     [] l.fmt = "numpy"  -> shift + 13 + (IF l.typed THEN 11 ELSE IF HasArgs(l) THEN 5 + (IF l.prob = "param" THEN 2 ELSE 0) ELSE 0)
 DocLen(l) == LeadLen(l) + DocLen0(l)
@@ -192,7 +201,10 @@ Offset(l) ==
 \* The line does not depend on what was asked of the object before: the summary (made of copies of the first paragraph's
 \* nodes, SummaryExtractor, markup/__init__.py:420-480) may or may not have been extracted when the body is rendered.
 Histories == {"render", "summary;render"}
-ReportedLine(l) == (IF DocstringLine(l) # 0 THEN DocstringLine(l) ELSE ObjLine(l)) + Offset(l) + CleanLead(l)
+\* docutils cuts its input with str.splitlines() (statemachine.string2lines): for the reST family every line after such a
+\* character is counted one further down than it is in the file                       (deviation DocutilsSplitsOnSep)
+SepShift(l) == IF l.sep # "none" /\ RstFamily(l) THEN 1 ELSE 0
+ReportedLine(l) == (IF DocstringLine(l) # 0 THEN DocstringLine(l) ELSE ObjLine(l)) + Offset(l) + CleanLead(l) + SepShift(l)
 
 \* ------------------------------------------------------------------ invariants
 \* known finding (findings.d/C16.json  rst-markup-line-off-by-one)
@@ -203,11 +215,14 @@ KF_LeadingWs(l, line) == l.longws /\ line \notin Acceptable(l) /\ (line - 1) \in
 \* known finding (findings.d/C16.json  napoleon-line-beyond-docstring): the line counted in the rewritten text lies past the closing quotes
 \* (tight: the "Note:" section of the google template becomes ".. note::" + a blank line, one line more than the source)
 KF_Napoleon(l, line) == (l.typed \/ l.tight) /\ line > CloseLine(l) /\ line <= CloseLine(l) + 4
+\* known finding (findings.d/C16.json  docutils-extra-line-boundaries)
+KF_DocutilsSep(l, line) == l.sep # "none" /\ RstFamily(l) /\ line \notin Acceptable(l) /\ (line - 1) \in Acceptable(l)
 DocstringLineRight == DocstringLine(lay) = TextLine0(lay)
 \* design level (enum) : the transcription satisfies the property, up to the known deviation
 ImplAcceptable == Source = "enum" =>
                     (\/ ReportedLine(lay) \in Acceptable(lay) \/ KF_RstLineNotConverted(lay, ReportedLine(lay))
-                     \/ KF_LeadingWs(lay, ReportedLine(lay)) \/ KF_Napoleon(lay, ReportedLine(lay)))
+                     \/ KF_LeadingWs(lay, ReportedLine(lay)) \/ KF_Napoleon(lay, ReportedLine(lay))
+                     \/ KF_DocutilsSep(lay, ReportedLine(lay)))
 ImplAcceptableStrict == Source = "enum" => ReportedLine(lay) \in Acceptable(lay)
 ReportedLineH(l, h) == ReportedLine(l)
 HistoryIndependent == \A h1, h2 \in Histories : ReportedLineH(lay, h1) = ReportedLineH(lay, h2)
@@ -230,7 +245,8 @@ Emit == IF Source = "enum" THEN PrintT(ToJson(Rec(lay)))
                              ok |-> (Len(Observed[obs].lines) = 1 /\ Observed[obs].lines[1] \in Acceptable(lay)),
                              kf |-> (Len(Observed[obs].lines) = 1 /\ (\/ KF_RstLineNotConverted(lay, Observed[obs].lines[1])
                                                                         \/ KF_LeadingWs(lay, Observed[obs].lines[1])
-                                                                        \/ KF_Napoleon(lay, Observed[obs].lines[1]))),
+                                                                        \/ KF_Napoleon(lay, Observed[obs].lines[1])
+                                                                        \/ KF_DocutilsSep(lay, Observed[obs].lines[1]))),
                              conforms |-> (Len(Observed[obs].lines) = 1 /\ Observed[obs].lines[1] = ReportedLine(lay)),
                              lo |-> Rec(lay).lo, hi |-> Rec(lay).hi, impl |-> ReportedLine(lay)]))
 
